@@ -89,7 +89,7 @@ func fill(c *Cluster, res *RunResult) {
 	res.SimTicks = c.stats.Ticks
 	res.ReadyLog = c.readyLog
 	res.ETLog = c.etLog
-	if c.viol != nil {
+	if c.viol != nil || c.opt.Debug {
 		res.Final += c.DebugState()
 		if rl := c.RaftLog(); len(rl) > 0 {
 			if len(rl) > 150 {
